@@ -61,7 +61,7 @@ def decide_length(A: E2Artefact, N, wd, timeout, R: Result, prop, stats, samples
     D = N + 6
     for attempt in range(3):
         cfile = os.path.join(wd, '%s_n%d.c' % (A.name, N))
-        open(cfile, 'w').write(e2gen.build_c(A.e, cfg, N, K, D))
+        open(cfile, 'w').write(e2gen.build_c(A.e, cfg, N, K, D, lr1_ref=getattr(A, 'lr1_ref', None)))
         r = run_cbmc(cfile, timeout)
         if not r['done']:
             R.inconclusive.append('E2 %s N=%d: %s' % (A.name, N, 'timeout after %ds' % timeout if r['timeout'] else 'no verdict: ' + r['out'][-300:]))
@@ -99,6 +99,9 @@ def decide_length(A: E2Artefact, N, wd, timeout, R: Result, prop, stats, samples
             continue
         nat = A.native(kinds)
         refc = classify(cfg, kinds) if all(cfg.productive) else None
+        if refc is None and getattr(A, 'lr1_ref', None):
+            r1 = lr_run(cfg, A.lr1_ref[0], A.lr1_ref[1], kinds)
+            refc = ('ok', N) if r1[0] == 'ok' else (('eof', N) if r1[1] == N else ('err', r1[1]))
         names = ' '.join(cfg.tnames[k] for k in kinds)
         confirmed = False
         if nat[0] in ('panic', 'hang'):
@@ -221,6 +224,12 @@ def corpus_artefact(name, path):
         return ('err', tag if tag != 0xEE else pulls - 1)
     A = E2Artefact(name, e, cfg, native, P.gen['rust'])
     A.path = path
+    if not all(cfg.productive):
+        # reference canonical LR(1) tables for the error index (property C03's rule for unproductive nonterminals)
+        lr1 = P.ref[0]
+        a1, g1, c1 = P.ref[1]
+        if not c1:
+            A.lr1_ref = (a1, g1)
     return A, None
 
 
